@@ -66,6 +66,9 @@ func searches(prop, tier string) []raftmc.Search {
 		sv := raftmc.Config{Name: "vote-only-change", N: 3, CheckQuorum: true, Storage: "mem"}
 		sv.MaxCrash = 1
 		add(sv, "stepped-down-novote", d(8, 10))
+		// (b3) a split election: late answers of the pre-vote round meet real candidates
+		sp := raftmc.Config{Name: "split-election", N: 3, PreVote: true, CheckQuorum: true, Storage: "mem"}
+		add(sp, "two-precandidates", d(10, 12))
 		// (c) membership: spare voter / learner, conf changes
 		for _, sp := range []string{"voter", "learner"} {
 			c := raftmc.Config{Name: "conf-" + sp, N: 3, Spare: sp, PreVote: true, CheckQuorum: true, Storage: "mem", UseTimeout: true, UseTick: true}
@@ -152,6 +155,13 @@ func searches(prop, tier string) []raftmc.Search {
 		rd.Name = "rocks-divergent"
 		rd.Storage = "rocks"
 		add(rd, "divergent", d(7, 8))
+		// a split election followed by proposals: two replicas that both believe they lead one term
+		// would commit different entries at one index
+		se := raftmc.Config{Name: "split-election+log", N: 3, PreVote: true, CheckQuorum: true, Storage: "mem", MaxSizeOne: true}
+		se.MaxProp = 2
+		if !q {
+			add(se, "two-precandidates", 14) // 1.7 million states at depth 13: thorough tier only
+		}
 		cf := raftmc.Config{Name: "log+conf", N: 3, Spare: "voter", PreVote: true, CheckQuorum: true, Storage: "mem", UseTimeout: true}
 		cf.MaxProp, cf.MaxConf, cf.MaxCompact = 1, 1, 1
 		add(cf, "leader2", d(6, 8))
